@@ -1121,4 +1121,70 @@ theorem bidx_spec {sx idx : List Nat} (hl : sx.length ≤ idx.length) :
   rw [this]
 
 
+/-! ### the shape `scalar_mult` requires of an `out=` buffer -/
+section outshape
+variable {α : Type} [Add α] [Mul α] [Sub α] [Zero α]
+
+theorem resultShape_eq {x y : Tensor α} {sx sy r : List Nat} (hx : IsCplx x sx) (hy : IsCplx y sy)
+    (hb : broadcastShape sx sy = .ok r) : resultShape x y = .ok (2 :: r) := by
+  unfold resultShape
+  rw [real_eq hx, real_eq hy]
+  simp only [ok_bind, reT_shape, hb, pure_eq_ok]
+
+theorem resultShape_err {x y : Tensor α} {sx sy : List Nat} {e : PyErr} (hx : IsCplx x sx) (hy : IsCplx y sy)
+    (hb : broadcastShape sx sy = .error e) : resultShape x y = .error .RuntimeError := by
+  unfold resultShape
+  rw [real_eq hx, real_eq hy]
+  simp only [ok_bind, reT_shape, hb, error_bind, broadcastShape_err hb]
+
+/-- whatever the operands (well-formed or not): when `scalar_mult` returns, the value has exactly the shape
+`(2, *broadcast_shapes(real(x).shape, real(y).shape))` -/
+theorem scalarMult_shape {x y z : Tensor α} {rs : List Nat} (h : resultShape x y = .ok rs)
+    (hz : scalarMult x y = .ok z) : z.shape = rs := by
+  unfold resultShape at h
+  cases hxr : real x with
+  | error e => rw [hxr] at h; cases h
+  | ok xr =>
+    cases hyr : real y with
+    | error e => rw [hxr, hyr] at h; cases h
+    | ok yr =>
+      rw [hxr, hyr] at h
+      simp only [ok_bind] at h
+      cases hb : broadcastShape xr.shape yr.shape with
+      | error e => rw [hb] at h; cases h
+      | ok r =>
+        rw [hb] at h
+        simp only [ok_bind, pure_eq_ok, Except.ok.injEq] at h
+        subst h
+        unfold scalarMult at hz
+        rw [hxr, hyr] at hz
+        simp only [ok_bind] at hz
+        rw [bop_eq _ xr yr hb] at hz
+        simp only [ok_bind] at hz
+        cases hxi : imag x with
+        | error e => rw [hxi] at hz; cases hz
+        | ok xi =>
+          cases hyi : imag y with
+          | error e => rw [hxi, hyi] at hz; cases hz
+          | ok yi =>
+            rw [hxi, hyi] at hz
+            simp only [ok_bind] at hz
+            cases hii : bop (fun a b => a * b) xi yi with
+            | error e => rw [hii] at hz; cases hz
+            | ok ii =>
+              cases hri : bop (fun a b => a * b) xr yi with
+              | error e => rw [hii, hri] at hz; cases hz
+              | ok ri =>
+                cases hir : bop (fun a b => a * b) xi yr with
+                | error e => rw [hii, hri, hir] at hz; cases hz
+                | ok ir =>
+                  rw [hii, hri, hir] at hz
+                  simp only [ok_bind, cat2] at hz
+                  split at hz
+                  · simp only [Except.ok.injEq] at hz
+                    rw [← hz]; rfl
+                  · cases hz
+
+end outshape
+
 end QV.Cplx
